@@ -282,6 +282,60 @@ pub fn c16(tier: Tier) -> i32 {
                 }
             }
         }
+        // --output: what a command leaves at the output path must not depend on what the path held before (a fresh
+        // path, a path holding a longer file, a path holding a shorter file), and must equal what it prints to stdout (up to the final newline)
+        {
+            let (_, txs) = &ls[1];
+            let sc = Scratch::new();
+            sc.all_years_config();
+            sc.write("in.cgt", dsl_text(txs).as_bytes());
+            for fmt in ["plain", "json"] {
+                let stdout = run_tool(&["report", "in.cgt", "--format", fmt, "--year", "2022"], &sc, std::time::Duration::from_secs(30)).stdout;
+                let long: Vec<u8> = std::iter::repeat_n(b'#', stdout.len() * 3 + 100).collect();
+                let mut left = vec![];
+                for (label, before) in [("fresh", None), ("longer", Some(long.clone())), ("shorter", Some(b"x\n".to_vec()))] {
+                    let name = format!("out-{fmt}-{label}.txt");
+                    if let Some(b) = &before {
+                        sc.write(&name, b);
+                    }
+                    let o = run_tool(&["report", "in.cgt", "--format", fmt, "--year", "2022", "--output", &name], &sc, std::time::Duration::from_secs(30));
+                    acc.states += 1;
+                    acc.validated += 1;
+                    acc.bump("cli:--output onto existing files");
+                    left.push((label, o.ok(), std::fs::read(sc.path(&name)).unwrap_or_default()));
+                }
+                // (stdout may end in one more newline than the file: that is presentation, not content)
+                let trim = |b: &[u8]| -> Vec<u8> {
+                    let mut v = b.to_vec();
+                    while v.last() == Some(&b'\n') {
+                        v.pop();
+                    }
+                    v
+                };
+                if left.iter().any(|(_, ok, bytes)| !*ok || trim(bytes) != trim(&stdout) || *bytes != left[0].2) || stdout.is_empty() {
+                    let sizes: Vec<(&str, bool, usize)> = left.iter().map(|(l, ok, b)| (*l, *ok, b.len())).collect();
+                    acc.violation(&ctx.findings, "C16", Violation { clause: "output-differs-between-processes".into(), input: Input::Ledger(txs.clone()), detail: format!("`cgt-tool report in.cgt --format {fmt} --year 2022 --output <path>`: stdout is {} bytes, the output file holds (previous content, exit ok, bytes) {sizes:?}", stdout.len()), context: json!({"profile": "--output"}) });
+                }
+            }
+        }
+        // configuration as an input: an override file that spells one tax year in several ways (TOML keys "2023",
+        // "02023", "002023"): whichever entry wins, it must be the same in every process
+        {
+            let sc = Scratch::new();
+            sc.write("config.toml", b"[exemptions]\n\"02023\" = 111\n\"2023\" = 222\n\"002023\" = 333\n\"0002023\" = 444\n");
+            sc.write("in.cgt", b"2023-05-01 BUY X 10 @ 10\n2023-06-01 SELL X 4 @ 12\n");
+            let args = ["report", "in.cgt", "--format", "json"];
+            let n = runs.max(16);
+            let outs: Vec<Vec<u8>> = (0..n).into_par_iter().map(|_| run_tool(&args, &sc, std::time::Duration::from_secs(30)).stdout).collect();
+            acc.states += n as u64;
+            acc.validated += n as u64;
+            acc.bump("cli:repeated-process-runs");
+            acc.bump("cli:repeated-config-runs");
+            let distinct: std::collections::BTreeSet<&Vec<u8>> = outs.iter().collect();
+            if distinct.len() != 1 || outs[0].is_empty() {
+                acc.violation(&ctx.findings, "C16", Violation { clause: "output-differs-between-processes".into(), input: Input::Json(json!({"config.toml": "[exemptions] \"02023\" = 111, \"2023\" = 222, \"002023\" = 333, \"0002023\" = 444", "ledger": "2023-05-01 BUY X 10 @ 10 / 2023-06-01 SELL X 4 @ 12"})), detail: format!("`cgt-tool report in.cgt --format json` with this ./config.toml printed {} different outputs in {n} runs", distinct.len()), context: json!({"profile": "config"}) });
+            }
+        }
         // the converter: an export producing every kind of warning several times (unmatched cancels, unknown actions,
         // withholdings without dividend), so that an unsorted map traversal shows as differing warning order
         let mut rows = vec![];
